@@ -10,5 +10,6 @@ S = Simple("C03", "hashmac", "hashmac.cpp",
            "function name of 0..80 chars (classes 0, <=32, 31/32/33, >32; NULL or \"\" when empty), customisation 0..100 B). Oracle: "
            "independent reference sponge (IV carries the declared bit length; names > 32 hashed; custom + separator). "
            "Non-trivial: message > 32 bytes, or a fixed/custom mode, or an XOF output length != 32. Distinct by case hash.",
-           ["reference model pinned to frozen HASH/HASHA/XOF/XOFA/KMAC(A) vectors", "function names are NUL-terminated strings"])
+           ["reference model pinned to frozen HASH/HASHA/XOF/XOFA/KMAC(A) vectors", "function names are NUL-terminated strings"],
+           post=lambda ev, tier: __import__("huge").run(ev, [("huge_hash", 3, 2)]) if tier == "thorough" else None)
 run, replay = S.run, S.replay
